@@ -14,3 +14,62 @@ class unique_label_name:
             forall(lambda l: implies(l in labs, l.name != name), "EdgeLabel"), result == name),
         "pure": lambda name, labs, result: labs == old(labs),
     }
+
+
+# ---- read-only view of an HRG (label tables + flat rule sequence) ----------------------------------
+@contract("fggs.fggs.HRG.all_rules")
+class HRG_all_rules:
+    # ASSUMED (not verified): HRG._rules is a dict of lists of mutable rules, outside pyvc's value model.
+    # The bounded checkers of C16 / C19 exercise all_rules(); here it is the identity on the view.
+    sig = {"self": "HRGView"}
+    assumed = True
+    modular = True
+    returns = "seq[RuleV]"
+    ensures = {"view": lambda self, result: result == self._rule_seq}
+
+
+def rule_lhs_registered(hrg):
+    # wf_hrg clause (established by HRG.add_rule): every rule's lhs is a nonterminal of the label table
+    return forall(lambda i: implies(0 <= i and i < len(hrg._rule_seq),
+                                    hrg._rule_seq[i].lhs.is_nonterminal
+                                    and hrg._rule_seq[i].lhs.name in hrg._edge_labels
+                                    and hrg._edge_labels[hrg._rule_seq[i].lhs.name] == hrg._rule_seq[i].lhs), "int")
+
+def rhs_labels_registered(hrg):
+    return forall(lambda i, j: implies(0 <= i and i < len(hrg._rule_seq) and 0 <= j and j < len(hrg._rule_seq[i].rhs.edges()),
+                                       hrg._rule_seq[i].rhs.edges()[j].label.name in hrg._edge_labels
+                                       and hrg._edge_labels[hrg._rule_seq[i].rhs.edges()[j].label.name]
+                                       == hrg._rule_seq[i].rhs.edges()[j].label), "int,int")
+
+def has_edge_upto(hrg, x, y, i, jmax_of_i):
+    # some rule with index < i (or rule i, edge index < jmax_of_i) has lhs x and an rhs edge labelled y
+    return exists(lambda a, b: 0 <= a and 0 <= b and b < len(hrg._rule_seq[a].rhs.edges())
+                  and (a < i or (a == i and b < jmax_of_i)) and a < len(hrg._rule_seq)
+                  and hrg._rule_seq[a].lhs == x and hrg._rule_seq[a].rhs.edges()[b].label == y, "int,int")
+
+
+@contract("fggs.utils.nonterminal_graph")
+class nonterminal_graph:
+    sig = {"hrg": "HRGView"}
+    properties = ["C19"]
+    requires = lambda hrg: label_tables_keyed_by_name(hrg) and rule_lhs_registered(hrg) and rhs_labels_registered(hrg)
+    loops = {
+        0: lambda hrg, g, _i0: (
+            forall(lambda x: (x in g) == (x in vals(hrg._edge_labels) and x.is_nonterminal), "EdgeLabel")
+            and forall(lambda x, y: implies(x in g, (y in g[x]) == (y.is_nonterminal and has_edge_upto(hrg, x, y, _i0, 0))),
+                       "EdgeLabel,EdgeLabel")),
+        1: lambda hrg, g, r, _i0, _i1: (
+            forall(lambda x: (x in g) == (x in vals(hrg._edge_labels) and x.is_nonterminal), "EdgeLabel")
+            and forall(lambda x, y: implies(x in g, (y in g[x]) == (y.is_nonterminal and has_edge_upto(hrg, x, y, _i0, _i1))),
+                       "EdgeLabel,EdgeLabel")),
+    }
+    ensures = {
+        "every_nonterminal_is_a_vertex": lambda hrg, result: forall(
+            lambda x: (x in result) == (x in vals(hrg._edge_labels) and x.is_nonterminal), "EdgeLabel"),
+        "edge_iff_rhs_occurrence": lambda hrg, result: forall(
+            lambda x, y: implies(x in result, (y in result[x]) == (
+                y.is_nonterminal and has_edge_upto(hrg, x, y, len(hrg._rule_seq), 0))), "EdgeLabel,EdgeLabel"),
+        "closed": lambda hrg, result: forall(
+            lambda x, y: implies(x in result and y in result[x], y in result), "EdgeLabel,EdgeLabel"),
+        "pure": lambda hrg: hrg._edge_labels == old(hrg._edge_labels) and hrg._rule_seq == old(hrg._rule_seq),
+    }
